@@ -50,7 +50,7 @@ REQUIRED_THEOREMS = ["Gv.Props.C03." + n for n in [
     "phylip_counts_as_read", "phylip_header_consistent", "phylip_eos_blank", "phylip_eos_blank_to_eof",
     "phylip_multi_counts", "phylip_outcome_full", "phylip_multi_outcome",
     # Nexus: counts of the DIMENSIONS commands / TAXA block as the parser read them (Proofs/NexusHeader.lean)
-    "nexus_counts_as_read", "nexus_header_consistent_partial", "nexus_header_counterexample_endblock"]]
+    "nexus_counts_as_read", "nexus_header_consistent_partial", "nexus_endblock_ends_block", "nexus_counterexample_nested_begin"]]
 TRUSTED = ["bufio.Reader / UTF-8 rune decoding (inputs with bytes >= 128 are judged by the predicate only)",
            "python watchdog: hang = no answer within TIMEOUT",
            "tools/extract/fmtfacts.go: recognises the proposed guards syntactically; the models are parametric in these facts"]
@@ -85,10 +85,14 @@ PARTIAL = [
     "`declaredNexus` reads off the raw bytes (two independent tokenisations; nexus_header_consistent_partial states the "
     "clause under that hypothesis) — checked on the implementation by the oracle predicate on every run (the scanner now "
     "skips the `#NEXUS` word, which has no `;`: before, it never saw the DATA block of an ordinary file and the clause was "
-    "vacuous). That hypothesis is NOT a theorem: nexus_header_counterexample_endblock (kernel-evaluated) — the parser does not know "
-    "ENDBLOCK, stays in the DATA block and lets a later `dimensions` overwrite ntax: `#NEXUS begin data; dimensions ntax=9; "
-    "endblock; begin trees; dimensions ntax=1; matrix a AC ; end;` succeeds with one row (reproduced on the built binary; not "
-    "produced by the generators, reported as a candidate finding). The multi-Phylip stream loop is now PROVED to terminate without panic / hang for the repaired code "
+    "vacuous). ENDBLOCK now ends a block like END (proposed_fixes/c03-nexus-endblock.diff; model keyword table and "
+    "nexus_endblock_ends_block: the former witness `begin data; dimensions ntax=9; endblock; begin trees; dimensions ntax=1; "
+    "matrix a AC ; end;` is an explicit error; it is in corpus/C03 and a seed file uses ENDBLOCK: a tree without the repair "
+    "fails on it with contradicts-header-ntax). A BEGIN inside an unterminated block is now an error as well "
+    "(proposed_fixes/c03-nexus-begin-inside-block.diff, regenerated fact nexus_rejects_nested_begin; before, it was skipped "
+    "as an unsupported command and a later `dimensions` overwrote the DATA block's ntax: nexus_counterexample_nested_begin; "
+    "found by the generators from the ENDBLOCK seed file, witness in corpus/C03). With both repairs no input is known on "
+    "which the two readings differ; their agreement on ALL inputs remains unproved. The multi-Phylip stream loop is now PROVED to terminate without panic / hang for the repaired code "
     "(phylip_multi_outcome: every Parse call that hands on an alignment consumes input), every alignment it hands on being "
     "well formed and consistent with its own header line (phylip_multi_wellformed, phylip_multi_counts)",
     "ParseAlignmentAuto: modelled as a first-byte dispatch over the single-parser models (C02.autodetect_selects_written_format)",
@@ -141,6 +145,10 @@ def seeds(rng):
     nxi = ("#NEXUS\nbegin data;\ndimensions ntax=2 nchar=8;\nformat datatype=dna interleave=yes;\nmatrix\n"
            "a ACGT\nb AC-T\n\na GGCC\nb GG-C\n;\nend;\n")
     out.append(("nexus", 0, nxi.encode(), nxi.index("matrix\n") + 7, "nexus-interleaved"))
+    # ENDBLOCK, the standard synonym of END; a later block with its own `dimensions` (must not reach the DATA block)
+    nxe = ("#NEXUS\nbegin data;\ndimensions ntax=2 nchar=4;\nformat datatype=dna;\nmatrix\na ACGT\nb AC-T\n;\nendblock;\n"
+           "begin trees;\ndimensions ntax=1;\ntree t = (a,b);\nENDBLOCK;\n")
+    out.append(("nexus", 0, nxe.encode(), nxe.index("matrix\n") + 7, "nexus-endblock"))
     cl = "CLUSTAL W (1.82) multiple sequence alignment\n\n\nab   ACGT\ncd   AC-T\n     ** *\n\nab   GG\ncd   GC\n     * \n"
     out.append(("clustal", 0, cl.encode(), cl.index("\n\n\n") + 3, "clustal-nocounts"))
     st = "# STOCKHOLM 1.0\n#=GF x\n\nab ACG.T\n#=GC y\ncd AC..T\n//\n"
